@@ -209,7 +209,16 @@ def check(case):
             pa = mo.power
             mo.sources = []
             for k in range(len(srcs)):
-                mo.register_source(build.mm.Excitation(V[k] * fac), srcs[k]['_idx'])
+                # (the constructor's other form: magnitude and phase in degrees; a negative magnitude is the phasor
+                # turned by 180 degrees)
+                vk = V[k] * fac
+                if (k + len(srcs)) % 2:
+                    ex = build.mm.Excitation(-abs(vk), math.degrees(math.atan2(vk.imag, vk.real)) + 180.0)
+                elif k % 3 == 1:
+                    ex = build.mm.Excitation(abs(vk), math.degrees(math.atan2(vk.imag, vk.real)))
+                else:
+                    ex = build.mm.Excitation(vk)
+                mo.register_source(ex, srcs[k]['_idx'])
             mo.compute()
             gb = pattern(mo)
             errc = np.abs(np.array(mo.current) - fac * I).max() / (abs(fac) * imax)
